@@ -166,8 +166,14 @@ pub fn check(c: &Case, obs: &mut Obs) -> Result<(), String> {
     }
     // (b) API-assembled -> write -> parse
     let mut built = Distinfo::new();
-    if let Some(r) = &want_rcs {
-        built.set_rcsid(r);
+    // writing is a pure function of the current content: intermediate writes (also before the
+    // RCS Id is set) must not influence later ones
+    let rcs_late = c.insert_order.first().map(|x| x % 2 == 1).unwrap_or(false);
+    let _ = built.as_bytes();
+    if !rcs_late {
+        if let Some(r) = &want_rcs {
+            built.set_rcsid(r);
+        }
     }
     let all: Vec<&File> = d.distfiles.iter().chain(d.patchfiles.iter()).collect();
     // insertion order: a generated permutation; relative order inside each section must be the
@@ -187,6 +193,9 @@ pub fn check(c: &Case, obs: &mut Obs) -> Result<(), String> {
             f.checksums.iter().map(|(a, h)| Checksum::new(to_digest(*a), h.clone())).collect(),
             f.size,
         );
+        if *k % 3 == 0 {
+            let _ = built.as_bytes();
+        }
         let fresh = built.insert(entry);
         if !fresh {
             return Err(format!("insert() reports {:?} as already present", B(f.name.clone())));
@@ -196,8 +205,17 @@ pub fn check(c: &Case, obs: &mut Obs) -> Result<(), String> {
             Kind::Patchfile => d2.patchfiles.push(f.clone()),
         }
     }
+    if rcs_late {
+        let _ = built.as_bytes();
+        if let Some(r) = &want_rcs {
+            built.set_rcsid(r);
+        }
+    }
     let written = built.as_bytes();
     obs.verdicts += 1;
+    if built.as_bytes() != written {
+        return Err("two consecutive as_bytes() calls give different bytes".into());
+    }
     let want_written = m::print(&d2);
     if written != want_written {
         return Err(format!(
